@@ -8,6 +8,9 @@ import (
 )
 
 func (u *UseCase) Get(ctx context.Context) (model.Dirs, error) {
+	u.m.Lock()
+	defer u.m.Unlock()
+
 	roots, err := u.dRepo.GetRoots(ctx)
 	if err != nil {
 		return nil, fmt.Errorf("get roots: %w", err)
